@@ -676,6 +676,9 @@ impl PartialEq for Value {
             (&ValueRepr::SmallStr(ref a), &ValueRepr::SmallStr(ref b)) => a.as_str() == b.as_str(),
             (&ValueRepr::Bytes(ref a), &ValueRepr::Bytes(ref b)) => a == b,
             (&ValueRepr::U128(a), &ValueRepr::U128(b)) => ({ a.0 }) == ({ b.0 }),
+            (&ValueRepr::Invalid(ref a), &ValueRepr::Invalid(ref b)) => {
+                (a.kind(), a.detail()) == (b.kind(), b.detail())
+            }
             _ => match ops::coerce(self, other, false) {
                 Some(ops::CoerceResult::F64(a, b)) => a == b,
                 Some(ops::CoerceResult::I128(a, b)) => a == b,
@@ -867,6 +870,11 @@ impl Ord for Value {
             // `coerce` represents two u128 values as i128, which reverses the
             // order if only one of them exceeds i128::MAX.
             (&ValueRepr::U128(a), &ValueRepr::U128(b)) => { a.0 }.cmp(&{ b.0 }),
+            // invalid values are not objects; order them like they are hashed
+            // and compared for equality.
+            (&ValueRepr::Invalid(ref a), &ValueRepr::Invalid(ref b)) => {
+                (a.kind().to_string(), a.detail()).cmp(&(b.kind().to_string(), b.detail()))
+            }
             _ => match ops::coerce(self, other, false) {
                 Some(ops::CoerceResult::F64(a, b)) => cmp_f64(a, b),
                 Some(ops::CoerceResult::I128(a, b)) => a.cmp(&b),
